@@ -23,7 +23,7 @@ ANCHORS = ["decaylanguage.utils.particleutils:charge_conjugate_name", "decaylang
 WORKERS = {"quick": 4, "thorough": 16}
 WTESTS = {"groups": ['conj'], "tests": ['tests/decay', 'tests/utils', 'tests/dec/test_dec.py']}
 REQUIRED = {"kind:has-antiparticle": 300, "kind:self-conjugate": 50, "kind:in-table-no-conjugate": 10, "kind:unknown-label": 50,
-            "pdg-route": 500, "multiplicity>=4": 20, "metadata>=2-user-keys": 20, "cross-layer-file": 10, "particle-and-antiparticle-with-unequal-multiplicities": 20, "names-again-after-an-ampgen-read-in-the-same-process": 100, "cross-layer-file-with-copy": 5, "cross-layer-file-with-sourceless-cdecay:sorting-first": 3, "returned-value-mutated-then-again": 50, "cache-cold": 1, "cache-evicting": 1,
+            "pdg-route": 500, "multiplicity>=4": 20, "metadata>=2-user-keys": 20, "cross-layer-file": 10, "cross-layer-file-with-the-cdecay-statement-twice": 3, "particle-and-antiparticle-with-unequal-multiplicities": 20, "names-again-after-an-ampgen-read-in-the-same-process": 100, "cross-layer-file-with-copy": 5, "cross-layer-file-with-sourceless-cdecay:sorting-first": 3, "returned-value-mutated-then-again": 50, "cache-cold": 1, "cache-evicting": 1,
             "C04.name.matches_table_oracle": 1000, "C04.daughters.each_particle_with_multiplicity": 100, "C04.mode.bf_and_metadata_kept": 100}
 EXHAUSTIVE_NOTE = "every EvtGen name and every PDG name of the installed tables is visited by every worker subset union (sharded), both cache states"
 ASSUMPTIONS = ["the csv data tables of the installed particle package are the ground truth for IDs, names and self-conjugacy"]
@@ -78,7 +78,7 @@ def gen_fs(ctx, pool, pdg):
 def gen_meta(rng):
     m = {"model": rng.choice(["PHSP", "VSS", "HELAMP", ""]), "model_params": rng.choice(["", [1.0, 0.5], ["x", -2.0], None])}
     for i in range(rng.choice([0, 1, 2, 3])):
-        m[rng.choice(["note", "src", "tag", "w"]) + str(i)] = rng.choice([1, "s", [1, {"a": None}], {"k": [1.5, True]}, None, 2.5])
+        m[rng.choice(["note", "src", "tag", "w"]) + str(i)] = rng.choice([1, "s", [1, {"a": None}], {"k": [1.5, True]}, None, 2.5, False, 0, 0.0, {}, [], ""])
     return m
 
 
@@ -154,6 +154,11 @@ def check_file(ctx, mother, lines):
     if copied:      # a copy of the table, conjugated as well (ChargeConj pairs the copy with its declared conjugate)
         ctx.hit("cross-layer-file-with-copy")
         text += f"CopyDecay MyCp {mother}\nChargeConj MyCp MyCpbar\nCDecay MyCpbar\n"
+    twice = (not copied) and ctx.rng.random() < 0.25
+    if twice:
+        # the CDecay statement once more (as when a generic file and a user file are parsed together): still the conjugated table under that name
+        text += f"CDecay {cm}\n"
+        ctx.hit("cross-layer-file-with-the-cdecay-statement-twice")
     wit = {"kind": "file", "mother": mother, "lines": lines}
     ctx.case({"file": text}, nontrivial=True, workload="gen-file")
     ctx.hit("cross-layer-file")
@@ -170,7 +175,7 @@ def check_file(ctx, mother, lines):
         return
     ctx.mon("C04.direct.cross-layer")
     expm = [mother, "MyCp", *sorted([cm, "MyCpbar"])] if copied else [mother, cm]
-    if p.list_decay_mother_names()[:1] != [mother] or sorted(p.list_decay_mother_names()) != sorted(expm):
+    if p.list_decay_mother_names()[:1] != [mother] or sorted(set(p.list_decay_mother_names()) if twice else p.list_decay_mother_names()) != sorted(expm):
         ctx.violate("cdecay-file:mothers", f"mothers {p.list_decay_mother_names()} expected {expm}", wit)
         return
     if copied:
